@@ -119,6 +119,17 @@ class LabOpAdd(LabOpBase):
     pass
 
 
+class LabOpTuned(AutoParameterObject):
+    """names its own ignorable constructor arguments; `debug` and `verbose` are ordinary arguments of this class"""
+
+    def __init__(self, amount, debug=False, verbose=False, cache_dir=None):
+        self.amount, self.debug, self.verbose, self.cache_dir = amount, debug, verbose, cache_dir
+
+    @staticmethod
+    def ignore_persistence_args():
+        return ['cache_dir']
+
+
 class LabOpMul(LabOpBase):
     pass
 
